@@ -54,6 +54,8 @@ var integer64 = []*instructionType{
 		// FIXME: Find a way how to represent those jump targets.
 		effects: func(i instruction) []expr.Effect {
 			target := regImmOp(binOpFunc(expr.Add), immTypeI, i, width64)
+			// The least-significant bit of the target is always cleared.
+			target = exprtools.BitAnd(target, expr.ConstFromUint(^uint64(1)), width64)
 			// Address of following instruction.
 			following := expr.ConstFromUint(uint64(i.addr) + 4)
 			return []expr.Effect{
